@@ -1,7 +1,8 @@
 """C19 — ensemble aggregators implement weighted mixtures consistently.
 
 L2: MeanAggregator / MixedNormalAggregator / MixedCategoricalAggregator / ModeAggregator (real
-    code, in-process) vs. `Model/Aggregate.lean` on the same members, weights and masks: every
+    code, in-process) vs. `Model/Aggregate.lean` + `Model/AggregateArray.lean` on the same member ARRAYS (class, mask
+    storage, dtype, all stored values - the model selects the namespace, stacks and derives the cells), weights: every
     returned statistic cell by cell (masks must agree exactly, values within 1e-12; scales are
     compared squared; the entropy values of the rows are supplied to the model, whose `H` is a
     parameter).  Inputs are dyadic rationals, so the only rounding is in the weights.
@@ -56,13 +57,14 @@ def _new_instance(case, opts=None):
     return getattr(A, CLS[case["agg"]])(**(opts if opts is not None else case["opts"]))
 
 
-def _arr(case, flat, mask, m=None):
+def _arr(case, flat, mask, m=None, dkey="dtype"):
     """one member array: `m["dtype"]` (default float64; the values of integer / bool members are whole numbers inside
-    the range of the dtype) and, for a MaskedArray member without masked entries, `m["ctor"] == "nomask"`: built
-    without a mask argument, so that its mask is `np.ma.nomask` (a predictor without any missing prediction)"""
+    the range of the dtype, those of float32 / float16 members are exactly representable there; `m["scale_dtype"]` for
+    the scale array of a normal member) and, for a MaskedArray member without masked entries, `m["ctor"] == "nomask"`:
+    built without a mask argument, so that its mask is `np.ma.nomask` (a predictor without any missing prediction)"""
     a = np.array(flat, dtype=float).reshape(tuple(case["shape"]))
-    if m and m.get("dtype"):
-        a = a.astype(m["dtype"])
+    if m and m.get(dkey):
+        a = a.astype(m[dkey])
     if case["masked"]:
         if m and m.get("ctor") == "nomask" and not any(mask):
             a = np.ma.array(a)
@@ -75,7 +77,7 @@ def _members(case):
     ys = []
     for m in case["members"]:
         if case["agg"] == "normal":
-            ys.append({"loc": _arr(case, m["data"], m["mask"], m), "scale": _arr(case, m["scale"], m["mask"], m)})
+            ys.append({"loc": _arr(case, m["data"], m["mask"], m), "scale": _arr(case, m["scale"], m["mask"], m, "scale_dtype")})
         else:
             ys.append(_arr(case, m["data"], m["mask"], m))
     for i, j in case.get("alias") or []:
@@ -346,7 +348,11 @@ def call(case, opts=None, weights="case", extra=None):
         if extra is not None:
             extra["ids_reused"] = bool(dead & _ids(args[0]))
         try:
-            return ("ok", _norm(_invoke(inst, args[0], args[1], case, extra)))
+            out = _invoke(inst, args[0], args[1], case, extra)
+            if extra is not None:
+                # the class of the returned `loc` (observable): MaskedArray <=> the call worked in the np.ma namespace
+                extra["out_ma"] = isinstance(out["loc"] if isinstance(out, dict) else out, np.ma.MaskedArray)
+            return ("ok", _norm(out))
         except HarnessError:
             raise
         except Exception as e:  # noqa: BLE001 - every exception is an observable outcome here
@@ -391,7 +397,9 @@ def _weights(rng, n):
         _, w = _weights(rng, n)
         while w is None or len(w) != n or not any(w):
             _, w = _weights(rng, n)
-        f = rng.choice([2.0 ** -30, 2.0 ** -40, 2.0 ** -60]) if kind == "tiny" else rng.choice([2.0 ** 20, 2.0 ** 40])
+        # (any power of two: the absolute size at which a weight would be "negligible" or two weights "equal" is not
+        # known in advance - 1e-5, 1e-8, 1e-12, machine epsilon - so the weights are put on both sides of all of them)
+        f = 2.0 ** -rng.randint(12, 64) if kind == "tiny" else 2.0 ** rng.randint(10, 40)
         return kind, [x * f for x in w]
     if kind == "none":
         return kind, None
@@ -411,6 +419,17 @@ def _weights(rng, n):
     if kind == "allzero":
         return kind, [0.0] * n
     return kind, [1.0] * (n + rng.choice([-1, 1]) if n > 1 else 2)
+
+
+WSCALES = [-30, -60, 20]
+
+
+def _wscales(rng):
+    """exponents e of the common factors 2^e of the clause `weight-scale-invariant` (exact scalings): the property holds
+    for EVERY common factor, so they are drawn log-uniformly - one that moves weights of ordinary size into the band
+    where absolute tolerances usually sit (1e-4 .. 1e-12: the given weights then lie on both sides of such a threshold),
+    one far below it, one large"""
+    return [-rng.randint(12, 40), -rng.randint(41, 70), rng.randint(1, 40)]
 
 
 def gen_case(rng, agg=None, opts=None, like=None, same_n=True):
@@ -495,12 +514,15 @@ def gen_case(rng, agg=None, opts=None, like=None, same_n=True):
     perm = list(range(n))
     rng.shuffle(perm)
     case = {"agg": agg, "opts": opts, "shape": shape, "masked": masked, "members": members, "weights": w,
-            "wkind": wkind, "perm": perm, "uniform_c": rng.choice([1.0, 0.5, 2.0, 1 / n, 0.1])}
+            "wkind": wkind, "perm": perm, "uniform_c": rng.choice([1.0, 0.5, 2.0, 1 / n, 0.1]),
+            "wscales": _wscales(rng)}
     _array_classes(rng, case, rows, c)
     return case
 
 
 INT_DTYPES = ["int64", "int32", "int16", "int8", "uint8", "uint16", "bool"]
+LOW_FLOATS = ["float32", "float16"]
+ALL_DTYPES = INT_DTYPES + LOW_FLOATS + ["float64"]
 
 
 def _int_value(rng, dtype, near_limit):
@@ -513,11 +535,44 @@ def _int_value(rng, dtype, near_limit):
     return float(rng.randint(max(int(info.min), -4), 4))
 
 
+def _small_int(rng, dtype):
+    """a small whole number of the dtype (|v| <= 4, the range of the float locations of the generator)"""
+    if dtype == "bool":
+        return float(rng.random() < 0.5)
+    return float(rng.randint(max(int(np.iinfo(dtype).min), -4), 4))
+
+
+def _hard_rows(rng, rows, c, ties):
+    """`rows` one-hot rows of `c` classes (hard predictions: each row is a vertex of the simplex and sums to 1); for
+    ModeAggregator (`ties`) 25 % of the rows have two ones (a top tie of the 0/1 votes)"""
+    data = []
+    for _ in range(rows):
+        row = [0.0] * c
+        for k in rng.sample(range(c), 2 if ties and c >= 2 and rng.random() < 0.25 else 1):
+            row[k] = 1.0
+        data += row
+    return data
+
+
+def _member_dtypes(rng, n, pool, p_mixed=0.3):
+    """one dtype for all members, or (p_mixed) a dtype per member drawn from `pool` + float64"""
+    if rng.random() < p_mixed:
+        return [rng.choice(pool + ["float64"]) for _ in range(n)]
+    return [rng.choice(pool)] * n
+
+
 def _array_classes(rng, case, rows, c):
-    """the class of the member arrays beyond float64 ndarray / MaskedArray-with-a-mask-array: integer and bool dtypes
-    (MeanAggregator: images, labels, counts - also near the limits of the dtype and mixed with float64 members;
-    ModeAggregator: hard 0/1 votes), and MaskedArray members built without a mask (`mask is np.ma.nomask`)"""
+    """the class of the member arrays beyond float64 ndarray / MaskedArray-with-a-mask-array, for every aggregator and
+    independently of plain / masked (mask array, `nomask`, partially masked members), weights and options:
+    * integer and bool dtypes wherever such a member is a legal input - MeanAggregator: images, labels, counts, also
+      near the limits of the dtype; MixedCategoricalAggregator: hard one-hot predictions (each row a vertex of the
+      simplex); ModeAggregator: hard 0/1 votes; MixedNormalAggregator: whole-number locations (|loc| <= 4) with floating
+      scales;
+    * float32 / float16 members (values exactly representable; the comparisons are then made to 64 eps of that dtype);
+    * lists mixing these dtypes between members (float64 included);
+    * MaskedArray members built without a mask (`mask is np.ma.nomask`)."""
     agg, members = case["agg"], case["members"]
+    n = len(members)
     u = rng.random()
     if agg == "mean" and u < 0.3:
         common = rng.choice(INT_DTYPES)
@@ -528,17 +583,49 @@ def _array_classes(rng, case, rows, c):
             if dt != "float64":
                 m["dtype"] = dt
                 m["data"] = [_int_value(rng, dt, near) for _ in m["data"]]
+    elif agg == "mean" and u < 0.42:
+        # float32 / float16 members (k/8 and k/1024 are exact there), alone or next to small integer / float64 members
+        for m, dt in zip(members, _member_dtypes(rng, n, LOW_FLOATS + (INT_DTYPES if rng.random() < 0.3 else []))):
+            if dt != "float64":
+                m["dtype"] = dt
+            if dt in INT_DTYPES:
+                m["data"] = [_small_int(rng, dt) for _ in m["data"]]
     elif agg == "mode" and u < 0.2:
         common = rng.choice(INT_DTYPES)
         for m in members:
             m["dtype"] = common
-            data = []
-            for _ in range(rows):
-                row = [0.0] * c
-                for k in rng.sample(range(c), 2 if c >= 2 and rng.random() < 0.25 else 1):
-                    row[k] = 1.0
-                data += row
-            m["data"] = data
+            m["data"] = _hard_rows(rng, rows, c, True)
+    elif agg == "mode" and u < 0.32:
+        # probabilities in float32 / float16 (k/16: exact), or hard and soft members of any dtype side by side
+        for m, dt in zip(members, _member_dtypes(rng, n, LOW_FLOATS + (INT_DTYPES if rng.random() < 0.4 else []))):
+            if dt != "float64":
+                m["dtype"] = dt
+            if dt in INT_DTYPES:
+                m["data"] = _hard_rows(rng, rows, c, True)
+    elif agg == "cat" and u < 0.36:
+        kind = rng.choice(["hard", "hard", "low", "mixed"])
+        pool = {"hard": INT_DTYPES, "low": LOW_FLOATS, "mixed": INT_DTYPES + LOW_FLOATS}[kind]
+        for m, dt in zip(members, _member_dtypes(rng, n, pool, 0.3 if kind != "mixed" else 1.0)):
+            if dt != "float64":
+                m["dtype"] = dt
+            if dt in INT_DTYPES:
+                m["data"] = _hard_rows(rng, rows, c, False)
+    elif agg == "normal" and u < 0.3:
+        kind = rng.choice(["intloc", "intloc", "low", "mixed"])
+        pool = {"intloc": INT_DTYPES, "low": LOW_FLOATS, "mixed": INT_DTYPES + LOW_FLOATS}[kind]
+        for m, dt in zip(members, _member_dtypes(rng, n, pool, 0.3 if kind != "mixed" else 1.0)):
+            if dt != "float64":
+                m["dtype"] = dt
+            if dt in INT_DTYPES:
+                m["data"] = [_small_int(rng, dt) for _ in m["data"]]
+            sdt = dt if dt in LOW_FLOATS and rng.random() < 0.8 else rng.choice(["float64", "float64"] + LOW_FLOATS)
+            if sdt != "float64":
+                m["scale_dtype"] = sdt
+        if any("float16" in (m.get("dtype"), m.get("scale_dtype")) for m in members):
+            # E[loc^2 + scale^2] - E[loc]^2 in float16 (eps = 1e-3, |loc| <= 4): the cancellation noise is of order
+            # 0.05, so the mixture variance is kept >= 1 (the property is stated over the reals)
+            for m in members:
+                m["scale"] = [rng.randint(8, 16) / 8 for _ in m["scale"]]
     if case["masked"]:
         for m in members:
             if not any(m["mask"]) and rng.random() < 0.35:
@@ -657,13 +744,17 @@ def gen_threads(rng):
 # --------------------------------------------------------------------------- L2: model
 
 
-def _cell(v, masked):
-    return None if masked else rat(v)
-
-
 def _entropy(p):
     eps = np.finfo(float).eps
     return float(-np.sum(p * np.log(p + eps), axis=-1))
+
+
+def _wire_arr(case, m, key="data", dkey="dtype"):
+    """a member array as the code receives it (`Model/AggregateArray.lean: Arr`): Python class, mask storage, dtype and
+    ALL stored values - also those under the mask; which of them are present is decided by the model"""
+    nomask = m.get("ctor") == "nomask" and not any(m["mask"])
+    return {"ma": bool(case["masked"]), "mask": None if nomask or not case["masked"] else [bool(b) for b in m["mask"]],
+            "dtype": m.get(dkey) or "float64", "data": [rat(v) for v in m[key]]}
 
 
 def lean_req(case, real):
@@ -671,21 +762,18 @@ def lean_req(case, real):
     ws = None if case["weights"] is None else [rat(x) for x in case["weights"]]
     agg = case["agg"]
     size = int(np.prod(case["shape"])) if case["shape"] else 1
+    arrs = [_wire_arr(case, m) for m in case["members"]]
     if agg == "mean":
-        cols = [[_cell(m["data"][j], m["mask"][j]) for m in case["members"]] for j in range(size)]
-        return {"op": "mean", "ws": ws, "n": n, "cols": cols}
+        return {"op": "mean", "ws": ws, "n": n, "size": size, "arrs": arrs}
     if agg == "normal":
-        locs = [[_cell(m["data"][j], m["mask"][j]) for m in case["members"]] for j in range(size)]
-        scs = [[_cell(m["scale"][j], m["mask"][j]) for m in case["members"]] for j in range(size)]
-        return {"op": "normal", "ws": ws, "n": n, "locs": locs, "scales": scs}
+        return {"op": "normal", "ws": ws, "n": n, "size": size, "arrs": arrs,
+                "sarrs": [_wire_arr(case, m, "scale", "scale_dtype") for m in case["members"]]}
     c = case["shape"][-1]
     nrows = size // c
-    rows = [[None if m["mask"][r * c] else [rat(v) for v in m["data"][r * c:(r + 1) * c]]
-             for m in case["members"]] for r in range(nrows)]
     if agg == "mode":
-        return {"op": "mode", "ws": ws, "n": n, "c": c, "rows": rows}
+        return {"op": "mode", "ws": ws, "n": n, "c": c, "size": size, "arrs": arrs}
     if case["opts"]["uncertainty_method"] == "confidence":
-        return {"op": "cat", "ws": ws, "n": n, "c": c, "rows": rows}
+        return {"op": "cat", "ws": ws, "n": n, "c": c, "size": size, "arrs": arrs}
     # entropy: H is a parameter of the model -> supply its values (the code's own float formula)
     hrows = [[None if m["mask"][r * c] else rat(_entropy(np.array(m["data"][r * c:(r + 1) * c])))
               for m in case["members"]] for r in range(nrows)]
@@ -694,28 +782,52 @@ def lean_req(case, real):
         d, mk = real[1]["loc"]
         d, mk = d.reshape(nrows, c), mk.reshape(nrows, c)
         hloc = [None if mk[r].all() or not math.isfinite(_entropy(d[r])) else rat(_entropy(d[r])) for r in range(nrows)]
-    return {"op": "cat_entropy", "ws": ws, "n": n, "c": c, "rows": rows, "hloc": hloc, "hrows": hrows}
+    return {"op": "cat_entropy", "ws": ws, "n": n, "c": c, "size": size, "arrs": arrs, "hloc": hloc, "hrows": hrows}
 
 
 _MAG = [1.0]
+_TOL = [TOL]
+ULPS = 64  # tolerance of a comparison in units of the machine epsilon of the arithmetic of the case (below float64)
+
+
+def _arith_eps(case):
+    """the coarsest machine epsilon of the arithmetic members of `case` can be aggregated in: NumPy stacks members into
+    their common dtype (integer / bool members are averaged in float64) and computes the unweighted mean, the
+    differences and the entropy in that dtype; a sub-list of the members (the members present at a cell, a permutation
+    prefix) has a common dtype no coarser than the narrowest floating member"""
+    eps = float(np.finfo(np.float64).eps)
+    for mem in (case or {}).get("members") or []:
+        for key in ("dtype", "scale_dtype"):
+            if mem.get(key) in LOW_FLOATS:
+                eps = max(eps, float(np.finfo(mem[key]).eps))
+    return eps
 
 
 def _set_mag(*cases):
-    """absolute tolerances are relative to the magnitude M of the member values of the case (`TOL * (M + |v|)`): the
+    """absolute tolerances are relative to the magnitude M of the member values of the case (`tol * (M + |v|)`): the
     rounding of a mean of values of size M is of order eps*M, and so is the noise of a scale (for the usual data,
-    |v| <= 4, this is the plain 1e-12; integer members go up to 2^40)"""
+    |v| <= 4, this is the plain 1e-12; integer members go up to 2^40), and to the precision of the members' dtype:
+    `tol = max(1e-12, 64 eps)` with eps the machine epsilon of the dtype the members are stacked into (float64: 1e-12)"""
     m = 1.0
+    eps = 0.0
     for c in cases:
+        eps = max(eps, _arith_eps(c))
         for mem in (c or {}).get("members") or []:
             for key in ("data", "scale"):
                 if mem.get(key):
                     m = max(m, max(abs(v) for v in mem[key]))
     _MAG[0] = m
+    _TOL[0] = max(TOL, ULPS * eps)
     return m
 
 
-def _close(a, b, tol=TOL, square=False):
-    return abs(a - b) <= tol * ((_MAG[0] ** 2 if square else _MAG[0]) + abs(b))
+def _ctol(t):
+    """a fixed tolerance `t` of a checker clause (1e-9, 1e-10), widened for members of a narrower floating dtype"""
+    return max(t, _TOL[0]) if _TOL[0] > TOL else t
+
+
+def _close(a, b, tol=None, square=False):
+    return abs(a - b) <= (_TOL[0] if tol is None else tol) * ((_MAG[0] ** 2 if square else _MAG[0]) + abs(b))
 
 
 def _cmp_cells(name, dm, model, square=False):
@@ -737,7 +849,7 @@ def _cmp_cells(name, dm, model, square=False):
     return None
 
 
-def compare_model(case, real, rep):
+def compare_model(case, real, rep, out_ma=None):
     """-> None or a text describing the disagreement"""
     _set_mag(case)
     agg, opts = case["agg"], case["opts"]
@@ -751,6 +863,10 @@ def compare_model(case, real, rep):
             return None
         return f"impl raised {real[1]}: {real[2]}; model returns values"
     out = real[1]
+    if out_ma is not None and rep.get("ma") is not None and bool(rep["ma"]) != bool(out_ma):
+        return (f"namespace: model works in {'np.ma' if rep['ma'] else 'np'} (all members are "
+                f"{'MaskedArrays' if rep['ma'] else 'not MaskedArrays'}), impl returned a "
+                f"{'MaskedArray' if out_ma else 'plain array'}")
     if not case["masked"] and any(v is None for v in model_loc):
         return "model: weights sum to zero (ZeroDivisionError), impl returned"
     if agg == "mean":
@@ -847,7 +963,7 @@ def _same(a, b, tie=None):
             m1 = m2 = np.zeros(d1.shape, dtype=bool) if m1.shape != d1.shape or m2.shape != d2.shape else m1 | m2
         if d1.shape != d2.shape or (m1 != m2).any():
             return f"{k}: masks/shapes differ"
-        ok = m1 | (np.abs(d1 - d2) <= TOL * (_MAG[0] + np.abs(d2))) | (np.isnan(d1) & np.isnan(d2))  # NaN: `non-finite-output`
+        ok = m1 | (np.abs(d1 - d2) <= _TOL[0] * (_MAG[0] + np.abs(d2))) | (np.isnan(d1) & np.isnan(d2))  # NaN: `non-finite-output`
         for j in np.nonzero(~ok.reshape(-1))[0]:
             if k == "loc" and tie is not None and tie(int(j), d1.reshape(-1)[j], d2.reshape(-1)[j]):
                 continue
@@ -869,8 +985,9 @@ def _sub_plain(case, j, step, P):
     for i in P:
         m = case["members"][i]
         mm = {"data": m["data"][j * step:(j + 1) * step], "mask": [False] * step}
-        if m.get("dtype"):
-            mm["dtype"] = m["dtype"]
+        for key in ("dtype", "scale_dtype"):
+            if m.get(key):
+                mm[key] = m[key]
         if "scale" in m:
             mm["scale"] = m["scale"][j * step:(j + 1) * step]
         sub["members"].append(mm)
@@ -968,7 +1085,9 @@ def _canon_overlap(case):
 
 
 def oracle(case, only=None, items_out=None):
-    """the property on the real code's outputs -> list of (clause, detail)"""
+    """the property on the real code's outputs -> list of (clause, detail) or (clause, detail, subject): `subject` = the
+    case the failure is to be reported on when it is not `case` itself (a valid call made by a clause - the present
+    members of a cell aggregated alone - that raises: the replay is that call)"""
     if not _valid(case):
         return []
     if case.get("nested"):
@@ -990,13 +1109,13 @@ def oracle(case, only=None, items_out=None):
         flat = [x for v in item.values() for x in (v if isinstance(v, list) else [v]) if isinstance(x, (float, np.floating))]
         if not all(math.isfinite(x) for x in flat):
             # a NaN / inf in a real output: the clause fails outright (nothing to send to the exact checker)
-            if not any(c == clause for c, _ in fails):
+            if not any(f[0] == clause for f in fails):
                 fails.append((clause, detail + " [non-finite value in the implementation's output]"))
             return
         ok = _py_check(item)
         if items_out is not None:
             items_out.append((clause, detail, item, ok))
-        if not ok and not any(c == clause for c, _ in fails):
+        if not ok and not any(f[0] == clause for f in fails):
             fails.append((clause, detail))
 
     base = call(case)
@@ -1020,7 +1139,7 @@ def oracle(case, only=None, items_out=None):
             fails.append(("reuse-independent", "same call on a fresh instance differs: " + r))
     # -- only the ratios of the weights matter: w and c*w (c a power of two, so c*w is exact) give the same outputs
     if w is not None and want("weight-scale-invariant"):
-        for cfac in (2.0 ** -30, 2.0 ** -60, 2.0 ** 20):
+        for cfac in [2.0 ** e for e in case.get("wscales") or WSCALES]:
             r = _same(base, call(case, weights=[x * cfac for x in w]), tie)
             if r:
                 fails.append(("weight-scale-invariant", f"weights {list(w)} vs the same weights times {cfac!r}: " + r))
@@ -1075,11 +1194,11 @@ def oracle(case, only=None, items_out=None):
                 ys = [None if m["mask"][j] else m["data"][j] for m in case["members"]]
                 vals = [y for y in ys if y is not None]
                 if not mk[j] and vals:
-                    emit("between", {"k": "between", "tol": TOL * (1.0 + max(abs(v) for v in vals)), "ws": wl, "ys": ys,
+                    emit("between", {"k": "between", "tol": _TOL[0] * (1.0 + max(abs(v) for v in vals)), "ws": wl, "ys": ys,
                                      "a": d[j]},
                          f"loc[{j}]={d[j]!r} outside [{min(vals)}, {max(vals)}]")
     # -- masked entries are ignored
-    if case["masked"] and want("masked-ignored"):
+    if case["masked"] and (want("masked-ignored") or only == "raises"):
         cells, step = _present_cells(case)
         for j, P in enumerate(cells):
             bad = None
@@ -1090,9 +1209,12 @@ def oracle(case, only=None, items_out=None):
                 if not all(mk.all() for _, mk in got.values()):
                     bad = f"cell {j}: no member with non-zero weight is present, yet the output is not masked"
             else:
-                ref = call(_sub_plain(case, j, step, P))
+                sub = _sub_plain(case, j, step, P)
+                ref = call(sub)
                 if ref[0] == "exc":
-                    bad = f"cell {j}: aggregating only the present members raises {ref[1]}"
+                    # a valid plain call that raises: reported on that call
+                    fails.append(("raises", f"{ref[1]}: {ref[2]} (the members {P} present at cell {j}, aggregated alone)", sub))
+                    break
                 else:
                     for k, (dv, mv) in got.items():
                         rv = ref[1][k][0].reshape(-1)
@@ -1121,9 +1243,9 @@ def oracle(case, only=None, items_out=None):
         d, mk = d.reshape(-1, c), mk.reshape(-1, c)
         for r_ in range(len(d)):
             if not mk[r_].any():
-                emit("simplex", {"k": "simplex", "tol": 1e-9, "c": c, "loc": d[r_].tolist()}, f"row {r_}: {d[r_].tolist()}")
+                emit("simplex", {"k": "simplex", "tol": _ctol(1e-9), "c": c, "loc": d[r_].tolist()}, f"row {r_}: {d[r_].tolist()}")
     # -- uncertainties in range, non-negative parts that add up
-    if agg == "cat" and want("uncertainty-range"):
+    if agg == "cat" and (want("uncertainty-range") or only == "raises"):
         c = case["shape"][-1]
         hi = (1 - 1 / c) if opts["uncertainty_method"] == "confidence" else math.log(c)
         tot = call(case, opts=dict(opts, decomposed_uncertainty=False))
@@ -1138,10 +1260,10 @@ def oracle(case, only=None, items_out=None):
             for j in range(len(u)):
                 if um[j] or am[j]:
                     continue
-                emit("uncertainty-range", {"k": "unc", "tol": 1e-9, "hi": hi, "u": u[j], "a": a[j], "e": e[j]},
+                emit("uncertainty-range", {"k": "unc", "tol": _ctol(1e-9), "hi": hi, "u": u[j], "a": a[j], "e": e[j]},
                      f"cell {j}: total={u[j]!r} (range [0, {hi}]), aleatoric={a[j]!r}, epistemic={e[j]!r}: out of range, "
                      f"negative part or total != aleatoric + epistemic")
-    if agg == "mode" and opts["with_uncertainty"] and want("mode-range"):
+    if agg == "mode" and opts["with_uncertainty"] and (want("mode-range") or only == "raises"):
         full = call(case, opts={"with_uncertainty": True})
         if full[0] == "exc":
             fails.append(("raises", f"{full[1:]}"))
@@ -1153,7 +1275,7 @@ def oracle(case, only=None, items_out=None):
                     emit("mode-range", {"k": "range", "tol": 1e-9, "hi": 1.0, "u": u[j]},
                          f"uncertainty[{j}]={u[j]!r} outside [0, 1]")
     # -- normal members: mixture variance = aleatoric + epistemic variance, any weights
-    if agg == "normal" and want("total-variance"):
+    if agg == "normal" and (want("total-variance") or only == "raises"):
         tot = call(case, opts={"decomposed_scale": False})
         dec = call(case, opts={"decomposed_scale": True})
         if tot[0] == "exc" or dec[0] == "exc":
@@ -1170,7 +1292,7 @@ def oracle(case, only=None, items_out=None):
                     fails.append(("total-variance", f"cell {j}: masks differ total={sm[j]} alea={am[j]} epi={em[j]}"))
                     break
                 v2, a2, e2 = float(s[j]) ** 2, float(a[j]) ** 2, float(e[j]) ** 2
-                emit("total-variance", {"k": "totvar", "tol": 1e-10 * (1.0 + abs(a2 + e2)), "v": v2, "a": a2, "e": e2},
+                emit("total-variance", {"k": "totvar", "tol": _ctol(1e-10) * ((_MAG[0] ** 2 if _TOL[0] > TOL else 1.0) + abs(a2 + e2)), "v": v2, "a": a2, "e": e2},
                      f"cell {j}: scale^2={v2!r} but aleatoric^2+epistemic^2={a2 + e2!r}")
     return [f for f in fails if only is None or f[0] == only or f[0] == "raises"]
 
@@ -1221,7 +1343,7 @@ def _wclass(w):
 
 def _fails(case, clause):
     try:
-        return any(c == clause for c, _ in oracle(case, only=clause))
+        return any(f[0] == clause for f in oracle(case, only=clause))
     except HarnessError:
         raise
     except Exception:  # a shrink candidate that is not a well-formed case
@@ -1338,11 +1460,22 @@ def shrink(case, clause):
             attempt(dict(copy.deepcopy(case), scribble=False))
         if case.get("alias"):
             attempt(dict(copy.deepcopy(case), alias=[]))
-        for key in ("ctor", "dtype"):  # ordinary arrays: a mask array for every MaskedArray member, float64
+        for key in ("ctor", "dtype", "scale_dtype"):  # ordinary arrays: a mask array for every MaskedArray member, float64
             if any(m.get(key) for m in case["members"]):
                 c2 = copy.deepcopy(case)
                 for m in c2["members"]:
                     m.pop(key, None)
+                attempt(c2)
+        # when the dtype is needed: one representative of its kind (integer / bool -> int64, float16 -> float32) if the
+        # clause still fails, so that one defect of a whole kind of dtypes gets one fingerprint
+        for key in ("dtype", "scale_dtype"):
+            canon_dt = {d: "int64" for d in INT_DTYPES}
+            canon_dt["float16"] = "float32"
+            if any(canon_dt.get(m.get(key), m.get(key)) != m.get(key) for m in case["members"]):
+                c2 = copy.deepcopy(case)
+                for m in c2["members"]:
+                    if m.get(key):
+                        m[key] = canon_dt.get(m[key], m[key])
                 attempt(c2)
         if case["masked"]:
             c2 = copy.deepcopy(case)
@@ -1397,6 +1530,9 @@ def fingerprint(case, clause):
     wcls = "" if clause == "reentrant" else f"weights={_wclass(case['weights'])}"
     dts = sorted({m["dtype"] for m in case["members"] if m.get("dtype")})
     arrays = ("dtype=" + "+".join(dts) if dts else "")
+    sdts = sorted({m["scale_dtype"] for m in case["members"] if m.get("scale_dtype")})
+    if sdts:
+        arrays += ("," if arrays else "") + "scale-dtype=" + "+".join(sdts)
     if case["masked"] and any(m.get("ctor") == "nomask" and not any(m["mask"]) for m in case["members"]):
         arrays += ("," if arrays else "") + "member-with-mask=nomask"
     parts = [p for p in (o, wcls, "masked" if case["masked"] else "", arrays, reused, nested) if p]
@@ -1412,25 +1548,28 @@ def _nontrivial(case):
 
 def _report(ck, case, fails):
     seen = set()
-    for clause, detail in fails:
+    for clause, detail, *subject in fails:
         if clause in seen:
             continue
         seen.add(clause)
-        small = shrink(_canon_overlap(case) if clause == "reentrant" and case.get("nested") else case, clause)
-        d2 = [d for c, d in oracle(small, only=clause) if c == clause]
+        on = subject[0] if subject else case
+        small = shrink(_canon_overlap(on) if clause == "reentrant" and on.get("nested") else on, clause)
+        d2 = [f[1] for f in oracle(small, only=clause) if f[0] == clause]
         ck.fail(fingerprint(small, clause), f"{CLS[case['agg']]}: {clause} fails", small, d2[0] if d2 else detail)
 
 
-_CASE_KEYS = ("agg", "opts", "shape", "masked", "members", "weights", "history", "supply", "alias", "scribble", "nested")
+_CASE_KEYS = ("agg", "opts", "shape", "masked", "members", "weights", "history", "supply", "alias", "scribble", "nested",
+              "wscales")
 
 
 def _check_cases(ck, cases, verbose=False):
-    reals, reqs, pyfails, items = [], [], [], []
+    reals, reqs, pyfails, items, outs_ma = [], [], [], [], []
     for case in cases:
         ex = {}
         # L2 is made on the call made alone; an overlapped run is tied to it by the clause `reentrant`
         real = call(dict(case, nested=None) if case.get("nested") else case, extra=ex)
         reals.append(real)
+        outs_ma.append(ex.get("out_ma"))
         reqs.append(lean_req(case, real))
         its = []
         pyfails.append(oracle(case, items_out=its))  # the property on the real outputs (Python side)
@@ -1457,11 +1596,34 @@ def _check_cases(ck, cases, verbose=False):
         ck.count("agg:" + case["agg"] + ":" + ",".join(f"{k_}={v}" for k_, v in sorted(case["opts"].items())))
         ck.count("weights:" + case.get("wkind", _wclass(case["weights"])))
         ck.count("masked" if case["masked"] else "plain")
+        dts = sorted({m.get(k_) for m in case["members"] for k_ in ("dtype", "scale_dtype") if m.get(k_)})
+        if dts:
+            kinds = sorted({"int" if d_ in INT_DTYPES[:-1] else d_ for d_ in dts})
+            how = "plain"
+            if case["masked"]:
+                how = "masked(" + ("entries-masked" if any(any(m["mask"]) for m in case["members"]) else "nothing-masked") + \
+                    (",nomask-member" if any(m.get("ctor") == "nomask" and not any(m["mask"]) for m in case["members"]) else "") + ")"
+            ck.count(f"dtype:{case['agg']}:{'+'.join(kinds)}:{how}")
         ck.count(f"members={len(case['members'])}")
         ck.count(f"ndim={len(case['shape'])}")
         ck.count("outcome:" + (real[1] if real[0] == "exc" else "returns"))
         ck.count("verified-checker-evaluations", len(chk))
-        dis = compare_model(case, real, rep)
+        dis = compare_model(case, real, rep, outs_ma[k])
+        if dis and real[0] == "exc" and rep.get("err") is None and _valid(case) and \
+                any(f[0] == "raises" and len(f) == 2 for f in pyfails[k]):
+            # a valid input on which the implementation raises: reported once, with its replay, by the clause `raises`
+            ck.count("valid-input-raises(reported by the clause `raises`, not as a correspondence mismatch)")
+            dis = None
+        if dis and real[0] == "exc" and rep.get("err") is None and not _valid(case) and not case.get("nested"):
+            # weights outside the oracle's domain (all zero: every cell of a masked result is masked) and the
+            # implementation raises: when the same members raise the same exception with weights=None, it is the
+            # members that are refused - a valid input that raises, reported by `raises` on that input
+            alt = dict(case, weights=None)
+            rs = [f for f in oracle(alt, only="raises") if f[0] == "raises" and len(f) == 2 and f[1].startswith(real[1])]
+            if rs:
+                ck.count("valid-input-raises(reported by the clause `raises`, not as a correspondence mismatch)")
+                _report(ck, alt, rs[:1])
+                dis = None
         if dis:
             ck.mismatch(case, dis)
         # L3: the verified checkers' verdicts (Lean) decide their clauses; the Python statement is the cross-check
@@ -1472,7 +1634,7 @@ def _check_cases(ck, cases, verbose=False):
             if not lean_ok:
                 lean_fail.setdefault(clause, detail)
         checker_clauses = {c for c, _, _, _ in items[k]}
-        fails = [(c, dt) for c, dt in pyfails[k] if c not in checker_clauses] + list(lean_fail.items())
+        fails = [f for f in pyfails[k] if f[0] not in checker_clauses] + list(lean_fail.items())
         if verbose:
             print("replay:", {"impl": real[0] if real[0] == "ok" else real, "model_vs_impl": dis or "agree",
                               "oracle": fails or "holds", "verified_checker_verdicts": chk})
@@ -1580,9 +1742,12 @@ def _corpus():
 def run(ck):
     ck.rule = ("generated cases: aggregator x options x 1..8 members x shapes (0-D..3-D) x weights "
                "(None/uniform/normalised/raw/some zero/all zero/wrong length) x plain/masked (cell masks for "
-               "mean/normal, row masks for categorical; fully masked members and cells); dyadic values; member arrays also of "
-               "integer / bool dtype (mean: near the limits of the dtype, mixed dtypes; mode: 0/1 votes) and MaskedArrays "
-               "without a mask (nomask); "
+               "mean/normal, row masks for categorical; fully masked members and cells); dyadic values; member arrays of every "
+               "dtype that is a legal input (mean: integer / bool near the limits of the dtype, float32/16; categorical: hard "
+               "one-hot rows in integer / bool dtypes, soft rows in float32/16; normal: whole-number loc in integer / bool "
+               "dtypes with float64/32/16 scales, float32/16 loc+scale; mode: 0/1 votes, float32/16 probabilities; dtypes mixed "
+               "between members) x plain / MaskedArray with a mask array / without a mask (nomask); weight-scale factors 2^e "
+               "drawn per case (e in -12..-40, -41..-70, 1..40); "
                "plus histories: 2..4 aggregate() calls on ONE aggregator object mixing plain/masked inputs, member "
                "counts, shapes and weights, every call after the first judged like a call on a fresh instance; "
                "rounds: 2..5 calls with arguments of one class and shape, the argument objects (lists and arrays) "
@@ -1593,7 +1758,9 @@ def run(ck):
                "real threads: 2..3 threads repeating 1..3 calls each on one shared object (switch interval 1e-6 s); "
                "distinct by canonical input; non-trivial = >=2 members and (weights given or masked)")
     ck.assumptions = [
-        "IEEE rounding: model is exact over Rat, compared within 1e-12 (relative) on dyadic inputs; scales compared squared",
+        "IEEE rounding: model is exact over Rat, compared within 1e-12 (relative) on dyadic inputs; scales compared squared; "
+        "cases with float32 / float16 members within 64 eps of the narrowest floating member dtype (values exactly "
+        "representable; float16 normal members with scale >= 1)",
         "entropy: log is not modelled; H is a parameter (theorems need H >= 0 / concavity as hypotheses), its values are supplied to the model by the harness",
         "categorical aggregators: masks are row-wise (a member's class distribution for a sample is present or masked as a whole)",
         "normal members: scale > 0 in the generator (at zero total variance the code's E[x^2]-E[x]^2 can round below 0)",
